@@ -110,8 +110,9 @@ theorem runMsgs_wall_eq (w1 w2 : Nat) (s : State) (msgs : List Msg) : runMsgs w1
 /-- **Wall-clock independence of the whole application**: every DeliverTx (result and state), every
 governance execution, and therefore every block and every run, is the same whatever the wall clock reads. -/
 theorem c01_wall_clock_irrelevant (order : List String) (w1 w2 : Nat) (s : State) (tx : Tx) (m : Msg) :
-    deliverTx order w1 s tx = deliverTx order w2 s tx ∧ govExec w1 s m = govExec w2 s m := by
-  constructor
+    deliverTx order w1 s tx = deliverTx order w2 s tx ∧ govExec w1 s m = govExec w2 s m ∧
+    ∀ msgs, govExecAll w1 s msgs = govExecAll w2 s msgs := by
+  refine ⟨?_, ?_, fun msgs => by unfold govExecAll; rw [runMsgs_wall_eq w1 w2 s msgs]⟩
   · unfold deliverTx
     cases hvb : Msg.validateBasicList s tx.msgs with
     | error e => rfl
@@ -127,15 +128,15 @@ theorem deliver_wall_eq (w1 w2 : Nat) (n : Node) (tx : Tx) : n.deliver w1 tx = n
   unfold Node.deliver
   rw [(c01_wall_clock_irrelevant Facts.anteOrder w1 w2 n.working tx default).1]
 
-theorem endBlock_wall_eq (w1 w2 : Nat) (n : Node) (govs : List Msg) : n.endBlock w1 govs = n.endBlock w2 govs := by
+theorem endBlock_wall_eq (w1 w2 : Nat) (n : Node) (govs : List (List Msg)) : n.endBlock w1 govs = n.endBlock w2 govs := by
   unfold Node.endBlock
-  have h2 : ∀ (govs : List Msg) (acc : State × List Bool),
-      govs.foldl (fun (acc : State × List Bool) m => let (s', ok) := govExec w1 acc.1 m; (s', acc.2 ++ [ok])) acc =
-      govs.foldl (fun (acc : State × List Bool) m => let (s', ok) := govExec w2 acc.1 m; (s', acc.2 ++ [ok])) acc := by
+  have h2 : ∀ (govs : List (List Msg)) (acc : State × List Bool),
+      govs.foldl (fun (acc : State × List Bool) m => let (s', ok) := govExecAll w1 acc.1 m; (s', acc.2 ++ [ok])) acc =
+      govs.foldl (fun (acc : State × List Bool) m => let (s', ok) := govExecAll w2 acc.1 m; (s', acc.2 ++ [ok])) acc := by
     intro govs
     induction govs with
     | nil => intro acc; rfl
-    | cons m ms ih => intro acc; simp only [List.foldl_cons, (c01_wall_clock_irrelevant [] w1 w2 acc.1 default m).2]; exact ih _
+    | cons m ms ih => intro acc; simp only [List.foldl_cons, (c01_wall_clock_irrelevant [] w1 w2 acc.1 default default).2.2 m]; exact ih _
   simp only [h2]
 
 /-- … and so is a whole block -/
@@ -151,7 +152,7 @@ inductive InBlock : Node → Node → Prop where
   | begin (n n1 n2 : Node) (t : Int) (h : InBlock n n1) (hb : n1.begin t = .ok n2) : InBlock n n2
   | deliver (n n1 : Node) (wall : Nat) (tx : Tx) (h : InBlock n n1) : InBlock n (n1.deliver wall tx).1
   | check (n n1 : Node) (tx : Tx) (h : InBlock n n1) : InBlock n (n1.checkTx tx).1
-  | endBlock (n n1 : Node) (wall : Nat) (govs : List Msg) (h : InBlock n n1) : InBlock n (n1.endBlock wall govs).1
+  | endBlock (n n1 : Node) (wall : Nat) (govs : List (List Msg)) (h : InBlock n n1) : InBlock n (n1.endBlock wall govs).1
 
 /-- only Commit changes the committed state -/
 theorem c01_only_commit_publishes (n n' : Node) (h : InBlock n n') : n'.committed = n.committed := by
